@@ -335,3 +335,434 @@ theorem missing_delim_table_run (o : Opts) {path : Path} {put : Container → Ci
   simpa [denoteItems_append, denoteItems, denoteVal] using this
 
 end CifModel.Model.Parser
+
+namespace CifModel.Model.Parser
+open CifModel CifModel.Model CifModel.Model.Lexer CifModel.Spec.Grammar CifModel.Spec.Lexical
+open CifModel.Gen.ErrCodes
+
+/-! ## part 3 — one defective entry inside a table (the table being the value of a scalar item) -/
+
+/-- the first entries of a table: the table loop goes on behind them with the entries collected -/
+theorem entries_prefix (o : Opts) : ∀ (es : List (Str × Presentation × Val)) (X : List TokSpec) (s : PS) (fuel : Nat) (pol : Policy)
+    (w : W) (acc : List (Str × Str × V)), wfEntries o es = true → szEntries es ≤ fuel → Feeds o s (entriesToks es ++ X) →
+    ∃ s', tableLoop o (fuel + 2 * es.length) s acc pol w = tableLoop o fuel s' (denoteEntries o.dia o.normKey es acc) pol w
+      ∧ Feeds o s' X
+  | [], X, s, fuel, pol, w, acc, _, _, hF => ⟨s, by simp [denoteEntries], by simpa [entriesToks] using hF⟩
+  | (k, kp, v) :: es, X, s, fuel, pol, w, acc, hw, hf, hF => by
+    simp only [wfEntries, Bool.and_eq_true, Bool.not_eq_true'] at hw
+    simp only [szEntries] at hf
+    simp only [entriesToks, List.cons_append, List.append_assoc] at hF
+    obtain ⟨t, s', hty, htx, hn, _, hr⟩ := hF.inv
+    obtain ⟨vty, vtx, vts, hvt, hstart, _⟩ := valToks_head v
+    have hr' := hr
+    rw [hvt, List.cons_append] at hr'
+    obtain ⟨t2, s2, hty2, htx2, hn2, ht2, hr2⟩ := hr'.inv
+    have hpend : Feeds o s2 (valToks v ++ (entriesToks es ++ X)) := by
+      rw [hvt, List.cons_append, ← hty2, ← htx2]; exact Feeds.pending ht2 hr2
+    obtain ⟨s3, h1, h2⟩ := value_structure o v _ s2 (fuel + 2 * es.length) pol w hw.1.2 (by omega) hpend
+    obtain ⟨s4, h3, h4⟩ := entries_prefix o es X s3 fuel pol w (putEntry o.normKey acc k (denoteVal o.dia o.normKey v)) hw.2
+      (by omega) h2
+    refine ⟨s4, ?_, h4⟩
+    have hfu : fuel + 2 * ((k, kp, v) :: es).length = (fuel + 2 * es.length + 1) + 1 := by simp; omega
+    rw [hfu, tableLoop]
+    simp only [bind_eq, pure_eq, P.bind, P.pure, hn, hty, htx, cstr_noNul hw.1.1.1]
+    rw [tableEntry]
+    simp only [bind_eq, pure_eq, P.bind, P.pure, hw.1.1.2, Bool.false_eq_true, if_false, hn2, hty2, hstart, if_true, h1,
+      tableSet_eq_putEntry, h3, denoteEntries]
+
+/-- well-formed entries, ONE defective entry (`DE`, recovered as `recE`, `cost` iterations of fuel), well-formed entries, `}` -/
+theorem entries_defect (o : Opts) (pre post : List (Str × Presentation × Val)) (DE : List TokSpec)
+    (recE : List (Str × Str × V) → List (Str × Str × V)) (C : Code) (cost : Nat) (rest : List TokSpec) (s : PS) (F : Nat) (w : W)
+    (acc : List (Str × Str × V)) (hpre : wfEntries o pre = true) (hpost : wfEntries o post = true)
+    (hstep : ∀ (s1 : PS) (w1 : W) (acc1 : List (Str × Str × V)),
+      Feeds o s1 (DE ++ (entriesToks post ++ (.ctable, [125]) :: rest)) →
+      ∃ s2 r, tableLoop o (F + cost) s1 acc1 acceptAll w1 = tableLoop o F s2 (recE acc1) acceptAll { w1 with log := r :: w1.log }
+        ∧ r.code = C ∧ Feeds o s2 (entriesToks post ++ (.ctable, [125]) :: rest))
+    (hf1 : szEntries pre ≤ F + cost) (hf2 : szEntries post + 1 ≤ F)
+    (hF : Feeds o s (entriesToks pre ++ (DE ++ (entriesToks post ++ (.ctable, [125]) :: rest)))) :
+    ∃ s' r, tableLoop o (F + cost + 2 * pre.length) s acc acceptAll w
+        = .ok (denoteEntries o.dia o.normKey post (recE (denoteEntries o.dia o.normKey pre acc)), s') { w with log := r :: w.log }
+      ∧ r.code = C ∧ Feeds o s' rest := by
+  obtain ⟨s1, h1, h2⟩ := entries_prefix o pre _ s (F + cost) acceptAll w acc hpre hf1 hF
+  obtain ⟨s2, r, h3, hc, h4⟩ := hstep s1 w (denoteEntries o.dia o.normKey pre acc) h2
+  obtain ⟨s3, h5, h6⟩ := entries_structure o post rest s2 F acceptAll { w with log := r :: w.log } _ hpost hf2 h4
+  exact ⟨s3, r, by rw [h1, h3, h5], hc, h6⟩
+
+/-- parse_value on a table with one defective entry -/
+theorem table_defect_value (o : Opts) (pre post : List (Str × Presentation × Val)) (DE : List TokSpec)
+    (recE : List (Str × Str × V) → List (Str × Str × V)) (C : Code) (cost : Nat) (btx : Str) (rest : List TokSpec) (s : PS) (F : Nat) (w : W)
+    (hpre : wfEntries o pre = true) (hpost : wfEntries o post = true)
+    (hstep : ∀ (s1 : PS) (w1 : W) (acc1 : List (Str × Str × V)),
+      Feeds o s1 (DE ++ (entriesToks post ++ (.ctable, [125]) :: rest)) →
+      ∃ s2 r, tableLoop o (F + cost) s1 acc1 acceptAll w1 = tableLoop o F s2 (recE acc1) acceptAll { w1 with log := r :: w1.log }
+        ∧ r.code = C ∧ Feeds o s2 (entriesToks post ++ (.ctable, [125]) :: rest))
+    (hf1 : szEntries pre ≤ F + cost) (hf2 : szEntries post + 1 ≤ F)
+    (hF : Feeds o s ((.otable, btx) :: (entriesToks pre ++ (DE ++ (entriesToks post ++ (.ctable, [125]) :: rest))))) :
+    ∃ s' r, parseValue o (F + cost + 2 * pre.length + 1) s acceptAll w
+        = .ok (.tbl (denoteEntries o.dia o.normKey post (recE (denoteEntries o.dia o.normKey pre []))), s') { w with log := r :: w.log }
+      ∧ r.code = C ∧ Feeds o s' rest := by
+  obtain ⟨t, s1, hty, _, hn, _, hr⟩ := hF.inv
+  obtain ⟨s2, r, h1, hc, h2⟩ := entries_defect o pre post DE recE C cost rest (consume s1) F w [] hpre hpost hstep hf1 hf2 hr
+  refine ⟨s2, r, ?_, hc, h2⟩
+  rw [parseValue]
+  simp only [bind_eq, pure_eq, P.bind, P.pure, hn, hty, h1]
+
+end CifModel.Model.Parser
+
+namespace CifModel.Model.Parser
+open CifModel CifModel.Model CifModel.Model.Lexer CifModel.Spec.Grammar CifModel.Spec.Lexical
+open CifModel.Gen.ErrCodes
+
+/-- a scalar item whose table value has ONE defective entry, inside any well-formed runs of items.
+    `hstepAll` = the behaviour of the table loop on the defective entry, for every sufficient fuel `F ≥ needE`. -/
+theorem table_item_run (o : Opts) {path : Path} {put : Container → Cif} {code : Str} (hv : View o path put code)
+    (pre post : List Item) (n : Str) (btx : Str) (epre epost : List (Str × Presentation × Val)) (DE : List TokSpec)
+    (recE : List (Str × Str × V) → List (Str × Str × V)) (C : Code) (cost needE : Nat)
+    (seen seen2 : List Str) (rest : List TokSpec) (s : PS) (fuel : Nat) (w : W)
+    (fs : List Container) (ls : List Loop) (isBlock : Bool) (hcif : w.cif = put (.mk code fs ls))
+    (hpre : wfItems o pre seen = true) (hseen : ∀ k ∈ normNames o ls, k ∈ seen)
+    (hname : wfName n = true) (hfresh : o.norm n ∉ normNames o (denoteItems o.dia o.normKey pre ls))
+    (hepre : wfEntries o epre = true) (hepost : wfEntries o epost = true)
+    (hstepAll : ∀ (F : Nat) (X : List TokSpec) (s1 : PS) (w1 : W) (acc1 : List (Str × Str × V)), needE ≤ F →
+      Feeds o s1 (DE ++ (entriesToks epost ++ (.ctable, [125]) :: X)) →
+      ∃ s2 r, tableLoop o (F + cost) s1 acc1 acceptAll w1 = tableLoop o F s2 (recE acc1) acceptAll { w1 with log := r :: w1.log }
+        ∧ r.code = C ∧ Feeds o s2 (entriesToks epost ++ (.ctable, [125]) :: X))
+    (hpost : wfItems o post seen2 = true)
+    (hseen2 : ∀ k ∈ normNames o (putScalar (denoteItems o.dia o.normKey pre ls) n
+        (.tbl (denoteEntries o.dia o.normKey epost (recE (denoteEntries o.dia o.normKey epre []))))), k ∈ seen2)
+    (hfuel : szItems pre + szItems post + (szEntries epre + szEntries epost + needE + cost + 2 * epre.length + 3) + 1 ≤ fuel)
+    (hrest : lastIsLoop post = true → ∃ ty tx ts, rest = (ty, tx) :: ts ∧ isTerminator ty = true)
+    (hF : Feeds o s (itemsToks pre ++ (((.name, n) :: (.otable, btx) ::
+        (entriesToks epre ++ (DE ++ (entriesToks epost ++ [(.ctable, [125])])))) ++ (itemsToks post ++ rest)))) :
+    ∃ s' r, elemsLoop o (fuel + post.length + 1 + pre.length) s (some path) isBlock acceptAll w
+        = elemsLoop o fuel s' (some path) isBlock acceptAll
+            { log := r :: w.log,
+              cif := put (.mk code fs (denoteItems o.dia o.normKey post (putScalar (denoteItems o.dia o.normKey pre ls) n
+                (.tbl (denoteEntries o.dia o.normKey epost (recE (denoteEntries o.dia o.normKey epre []))))))) }
+      ∧ r.code = C ∧ Feeds o s' rest :=
+  item_defect_run o hv pre post n .otable btx (entriesToks epre ++ (DE ++ (entriesToks epost ++ [(.ctable, [125])])))
+    (.tbl (denoteEntries o.dia o.normKey epost (recE (denoteEntries o.dia o.normKey epre [])))) C
+    (szEntries epre + szEntries epost + needE + cost + 2 * epre.length + 3) seen seen2 rest s fuel w fs ls isBlock hcif hpre hseen hname
+    hfresh rfl rfl
+    (by
+      intro f s1 w1 hf hF1
+      obtain ⟨F, hFe⟩ : ∃ F, f = F + cost + 2 * epre.length + 1 := ⟨f - cost - 2 * epre.length - 1, by omega⟩
+      rw [hFe]
+      refine table_defect_value o epre epost DE recE C cost btx _ s1 F w1 hepre hepost
+        (fun s2 w2 acc2 h => hstepAll F _ s2 w2 acc2 (by omega) h) (by omega) (by omega) ?_
+      simpa [List.append_assoc] using hF1)
+    hpost hseen2 hfuel hrest hF
+
+end CifModel.Model.Parser
+
+namespace CifModel.Model.Parser
+open CifModel CifModel.Model CifModel.Model.Lexer CifModel.Spec.Grammar CifModel.Spec.Lexical
+open CifModel.Gen.ErrCodes
+
+/-- what follows an entry inside a table (the next key or the closing brace) does not start a value -/
+theorem entries_rest_head (es : List (Str × Presentation × Val)) (X : List TokSpec) :
+    ∃ ty tx ts, entriesToks es ++ (.ctable, [125]) :: X = (ty, tx) :: ts ∧ isValueStart ty = false := by
+  cases es with
+  | nil => exact ⟨_, _, _, rfl, rfl⟩
+  | cons e r =>
+    obtain ⟨k, kp, v⟩ := e
+    exact ⟨.key, k, valToks v ++ (entriesToks r ++ (.ctable, [125]) :: X), by simp [entriesToks], rfl⟩
+
+/-! ### a key without a value (CIF_MISSING_VALUE inside a table): the entry gets the unknown value -/
+
+theorem table_missing_value_step (o : Opts) (k : Str) (epost : List (Str × Presentation × Val)) (X : List TokSpec) (F : Nat) (s1 : PS)
+    (w1 : W) (acc1 : List (Str × Str × V)) (hk0 : noNul k = true) (hkd : hasDisallowed k = false)
+    (hF : Feeds o s1 ([(.key, k)] ++ (entriesToks epost ++ (.ctable, [125]) :: X))) :
+    ∃ s2 r, tableLoop o (F + 2) s1 acc1 acceptAll w1
+        = tableLoop o F s2 (putEntry o.normKey acc1 k .unk) acceptAll { w1 with log := r :: w1.log }
+      ∧ r.code = CIF_MISSING_VALUE ∧ Feeds o s2 (entriesToks epost ++ (.ctable, [125]) :: X) := by
+  simp only [List.singleton_append] at hF
+  obtain ⟨t, s', hty, htx, hn, _, hr⟩ := hF.inv
+  obtain ⟨ty2, tx2, ts2, hhead, hns⟩ := entries_rest_head epost X
+  have hr' := hr
+  rw [hhead] at hr'
+  obtain ⟨t2, s2, hty2, htx2, hn2, ht2, hr2⟩ := hr'.inv
+  refine ⟨s2, ⟨CIF_MISSING_VALUE, s2.scan.line, s2.scan.col - t2.text.length⟩, ?_, rfl,
+    by rw [hhead, ← hty2, ← htx2]; exact Feeds.pending ht2 hr2⟩
+  rw [tableLoop]
+  simp only [bind_eq, pure_eq, P.bind, P.pure, hn, hty, htx, cstr_noNul hk0]
+  rw [tableEntry]
+  simp only [bind_eq, pure_eq, P.bind, P.pure, hkd, Bool.false_eq_true, if_false, hn2, hty2, hns, report_accept,
+    tableSet_eq_putEntry]
+
+/-! ### a text field used as a key (CIF_MISQUOTED_KEY): its decoded content is the key -/
+
+theorem table_misquoted_key_step (o : Opts) (body : Str) (v : Val) (epost : List (Str × Presentation × Val)) (X : List TokSpec) (F : Nat)
+    (s1 : PS) (w1 : W) (acc1 : List (Str × Str × V))
+    (hk0 : noNul (Decode.decodeText o.unfold o.prem body) = true) (hkd : hasDisallowed (Decode.decodeText o.unfold o.prem body) = false)
+    (hwv : wfVal o v = true) (hf : szVal v ≤ F)
+    (hF : Feeds o s1 (((.tkey, body) :: valToks v) ++ (entriesToks epost ++ (.ctable, [125]) :: X))) :
+    ∃ s2 r, tableLoop o (F + 2) s1 acc1 acceptAll w1
+        = tableLoop o F s2 (putEntry o.normKey acc1 (Decode.decodeText o.unfold o.prem body) (denoteVal o.dia o.normKey v)) acceptAll
+            { w1 with log := r :: w1.log }
+      ∧ r.code = CIF_MISQUOTED_KEY ∧ Feeds o s2 (entriesToks epost ++ (.ctable, [125]) :: X) := by
+  simp only [List.cons_append] at hF
+  obtain ⟨t, s', hty, htx, hn, _, hr⟩ := hF.inv
+  obtain ⟨vty, vtx, vts, hvt, hstart, _⟩ := valToks_head v
+  have hr' := hr
+  rw [hvt, List.cons_append] at hr'
+  obtain ⟨t2, s2, hty2, htx2, hn2, ht2, hr2⟩ := hr'.inv
+  have hpend : Feeds o s2 (valToks v ++ (entriesToks epost ++ (.ctable, [125]) :: X)) := by
+    rw [hvt, List.cons_append, ← hty2, ← htx2]; exact Feeds.pending ht2 hr2
+  let r0 : Report := ⟨CIF_MISQUOTED_KEY, s'.scan.line, s'.scan.col - body.length⟩
+  obtain ⟨s3, h1, h2⟩ := value_structure o v _ s2 F acceptAll { w1 with log := r0 :: w1.log } hwv hf hpend
+  refine ⟨s3, r0, ?_, rfl, h2⟩
+  rw [tableLoop]
+  simp only [bind_eq, pure_eq, P.bind, P.pure, hn, hty, htx, report_accept, cstr_noNul hk0]
+  rw [tableEntry]
+  simp only [bind_eq, pure_eq, P.bind, P.pure, hkd, Bool.false_eq_true, if_false, hn2, hty2, hstart, if_true, h1,
+    tableSet_eq_putEntry, r0]
+
+/-! ### a value without a key (CIF_MISSING_KEY): parsed and dropped -/
+
+/-- the value is delimited, a text field, a list or a table (a whitespace-delimited word: `table_stray_word_step`) -/
+def notBare : Val → Bool
+  | .unk => false
+  | .na => false
+  | .str _ .bare => false
+  | _ => true
+
+theorem valToks_head_notBare (v : Val) (h : notBare v = true) :
+    ∃ ty tx ts, valToks v = (ty, tx) :: ts ∧ (ty = .qvalue ∨ ty = .tvalue ∨ ty = .olist ∨ ty = .otable) := by
+  cases v with
+  | unk => simp [notBare] at h
+  | na => simp [notBare] at h
+  | str s p =>
+    cases p with
+    | bare => exact absurd h (by simp [notBare])
+    | _ => exact ⟨_, _, _, rfl, by simp [Presentation.tokType]⟩
+  | enc t b => exact ⟨_, _, _, rfl, Or.inr (Or.inl rfl)⟩
+  | lst vs => exact ⟨_, _, _, rfl, Or.inr (Or.inr (Or.inl rfl))⟩
+  | tbl es => exact ⟨_, _, _, rfl, Or.inr (Or.inr (Or.inr rfl))⟩
+
+theorem table_missing_key_step (o : Opts) (v : Val) (epost : List (Str × Presentation × Val)) (X : List TokSpec) (F : Nat)
+    (s1 : PS) (w1 : W) (acc1 : List (Str × Str × V)) (hnb : notBare v = true) (hwv : wfVal o v = true) (hf : szVal v ≤ F)
+    (hF : Feeds o s1 (valToks v ++ (entriesToks epost ++ (.ctable, [125]) :: X))) :
+    ∃ s2 r, tableLoop o (F + 1) s1 acc1 acceptAll w1 = tableLoop o F s2 acc1 acceptAll { w1 with log := r :: w1.log }
+      ∧ r.code = CIF_MISSING_KEY ∧ Feeds o s2 (entriesToks epost ++ (.ctable, [125]) :: X) := by
+  obtain ⟨vty, vtx, vts, hvt, hty4⟩ := valToks_head_notBare v hnb
+  have hF' := hF
+  rw [hvt, List.cons_append] at hF'
+  obtain ⟨t, s', hty, htx, hn, ht, hr⟩ := hF'.inv
+  have hpend : Feeds o s' (valToks v ++ (entriesToks epost ++ (.ctable, [125]) :: X)) := by
+    rw [hvt, List.cons_append, ← hty, ← htx]; exact Feeds.pending ht hr
+  let r0 : Report := ⟨CIF_MISSING_KEY, s'.scan.line, s'.scan.col - t.text.length⟩
+  obtain ⟨s3, h1, h2⟩ := value_structure o v _ s' F acceptAll { w1 with log := r0 :: w1.log } hwv hf hpend
+  refine ⟨s3, r0, ?_, rfl, h2⟩
+  rw [tableLoop]
+  rcases hty4 with h | h | h | h <;>
+    simp only [bind_eq, pure_eq, P.bind, P.pure, hn, hty, h, report_accept, h1, r0]
+
+/-- a whitespace-delimited word without a colon inside a table -/
+theorem table_stray_word_step (o : Opts) (tx : Str) (epost : List (Str × Presentation × Val)) (X : List TokSpec) (F : Nat)
+    (s1 : PS) (w1 : W) (acc1 : List (Str × Str × V)) (hhead : tx.head? ≠ some colon) (hcolon : colonIdx tx = none)
+    (hF : Feeds o s1 ([(.value, tx)] ++ (entriesToks epost ++ (.ctable, [125]) :: X))) :
+    ∃ s2 r, tableLoop o (F + 1) s1 acc1 acceptAll w1 = tableLoop o F s2 acc1 acceptAll { w1 with log := r :: w1.log }
+      ∧ r.code = CIF_MISSING_KEY ∧ Feeds o s2 (entriesToks epost ++ (.ctable, [125]) :: X) := by
+  simp only [List.singleton_append] at hF
+  obtain ⟨t, s', hty, htx, hn, _, hr⟩ := hF.inv
+  refine ⟨consume s', ⟨CIF_MISSING_KEY, s'.scan.line, s'.scan.col - t.text.length⟩, ?_, rfl, hr⟩
+  rw [tableLoop]
+  simp only [bind_eq, pure_eq, P.bind, P.pure, hn, hty, htx, hhead, if_false, hcolon, report_accept]
+
+/-! ### a colon without a key (CIF_NULL_KEY), the colon standing alone: the value behind it is parsed and dropped -/
+
+theorem table_null_key_step (o : Opts) (v : Val) (epost : List (Str × Presentation × Val)) (X : List TokSpec) (F : Nat)
+    (s1 : PS) (w1 : W) (acc1 : List (Str × Str × V)) (hwv : wfVal o v = true) (hf : szVal v ≤ F)
+    (hF : Feeds o s1 (((.value, [colon]) :: valToks v) ++ (entriesToks epost ++ (.ctable, [125]) :: X))) :
+    ∃ s2 r, tableLoop o (F + 2) s1 acc1 acceptAll w1 = tableLoop o F s2 acc1 acceptAll { w1 with log := r :: w1.log }
+      ∧ r.code = CIF_NULL_KEY ∧ Feeds o s2 (entriesToks epost ++ (.ctable, [125]) :: X) := by
+  simp only [List.cons_append] at hF
+  obtain ⟨t, s', hty, htx, hn, _, hr⟩ := hF.inv
+  obtain ⟨vty, vtx, vts, hvt, hstart, _⟩ := valToks_head v
+  have hr' := hr
+  rw [hvt, List.cons_append] at hr'
+  obtain ⟨t2, s2, hty2, htx2, hn2, ht2, hr2⟩ := hr'.inv
+  have hpend : Feeds o s2 (valToks v ++ (entriesToks epost ++ (.ctable, [125]) :: X)) := by
+    rw [hvt, List.cons_append, ← hty2, ← htx2]; exact Feeds.pending ht2 hr2
+  let r0 : Report := ⟨CIF_NULL_KEY, s'.scan.line, s'.scan.col - 1⟩
+  obtain ⟨s3, h1, h2⟩ := value_structure o v _ s2 F acceptAll { w1 with log := r0 :: w1.log } hwv hf hpend
+  refine ⟨s3, r0, ?_, rfl, h2⟩
+  rw [tableLoop]
+  simp only [bind_eq, pure_eq, P.bind, P.pure, hn, hty, htx, List.head?_cons, if_true, report_accept, List.length_singleton,
+    Nat.lt_irrefl, gt_iff_lt, if_false]
+  rw [tableEntry]
+  simp only [bind_eq, pure_eq, P.bind, P.pure, hn2, hty2, hstart, if_true, h1, r0]
+
+end CifModel.Model.Parser
+
+namespace CifModel.Model.Parser
+open CifModel CifModel.Model CifModel.Model.Lexer CifModel.Spec.Grammar CifModel.Spec.Lexical
+open CifModel.Gen.ErrCodes
+
+theorem denoteEntries_append (dia : Dialect) (nk : Str → Str) : ∀ (a b : List (Str × Presentation × Val)) (acc : List (Str × Str × V)),
+    denoteEntries dia nk (a ++ b) acc = denoteEntries dia nk b (denoteEntries dia nk a acc)
+  | [], b, acc => by simp [denoteEntries]
+  | (k, kp, v) :: r, b, acc => by simp only [List.cons_append, denoteEntries]; exact denoteEntries_append dia nk r b _
+
+/-- `table_item_run` with the recovery given as the entries `R` that stand for the defective construct: the content afterwards is
+    that of the document in which the defective construct is replaced by `R` -/
+theorem table_item_run_as (o : Opts) {path : Path} {put : Container → Cif} {code : Str} (hv : View o path put code)
+    (pre post : List Item) (n : Str) (btx : Str) (epre epost R : List (Str × Presentation × Val)) (DE : List TokSpec)
+    (C : Code) (cost needE : Nat)
+    (seen seen2 : List Str) (rest : List TokSpec) (s : PS) (fuel : Nat) (w : W)
+    (fs : List Container) (ls : List Loop) (isBlock : Bool) (hcif : w.cif = put (.mk code fs ls))
+    (hpre : wfItems o pre seen = true) (hseen : ∀ k ∈ normNames o ls, k ∈ seen)
+    (hname : wfName n = true) (hfresh : o.norm n ∉ normNames o (denoteItems o.dia o.normKey pre ls))
+    (hepre : wfEntries o epre = true) (hepost : wfEntries o epost = true)
+    (hstepAll : ∀ (F : Nat) (X : List TokSpec) (s1 : PS) (w1 : W) (acc1 : List (Str × Str × V)), needE ≤ F →
+      Feeds o s1 (DE ++ (entriesToks epost ++ (.ctable, [125]) :: X)) →
+      ∃ s2 r, tableLoop o (F + cost) s1 acc1 acceptAll w1
+          = tableLoop o F s2 (denoteEntries o.dia o.normKey R acc1) acceptAll { w1 with log := r :: w1.log }
+        ∧ r.code = C ∧ Feeds o s2 (entriesToks epost ++ (.ctable, [125]) :: X))
+    (hpost : wfItems o post seen2 = true)
+    (hseen2 : ∀ k ∈ normNames o (denoteItems o.dia o.normKey (pre ++ [.item n (.tbl (epre ++ R ++ epost))]) ls), k ∈ seen2)
+    (hfuel : szItems pre + szItems post + (szEntries epre + szEntries epost + needE + cost + 2 * epre.length + 3) + 1 ≤ fuel)
+    (hrest : lastIsLoop post = true → ∃ ty tx ts, rest = (ty, tx) :: ts ∧ isTerminator ty = true)
+    (hF : Feeds o s (itemsToks pre ++ (((.name, n) :: (.otable, btx) ::
+        (entriesToks epre ++ (DE ++ (entriesToks epost ++ [(.ctable, [125])])))) ++ (itemsToks post ++ rest)))) :
+    ∃ s' r, elemsLoop o (fuel + post.length + 1 + pre.length) s (some path) isBlock acceptAll w
+        = elemsLoop o fuel s' (some path) isBlock acceptAll
+            { log := r :: w.log,
+              cif := put (.mk code fs (denoteItems o.dia o.normKey (pre ++ [.item n (.tbl (epre ++ R ++ epost))] ++ post) ls)) }
+      ∧ r.code = C ∧ Feeds o s' rest := by
+  have := table_item_run o hv pre post n btx epre epost DE (fun acc => denoteEntries o.dia o.normKey R acc) C cost needE seen seen2
+    rest s fuel w fs ls isBlock hcif hpre hseen hname hfresh hepre hepost hstepAll hpost
+    (by simpa [denoteItems_append, denoteItems, denoteVal, denoteEntries_append] using hseen2) hfuel hrest hF
+  simpa [denoteItems_append, denoteItems, denoteVal, denoteEntries_append] using this
+
+end CifModel.Model.Parser
+
+namespace CifModel.Model.Parser
+open CifModel CifModel.Model CifModel.Model.Lexer CifModel.Spec.Grammar CifModel.Spec.Lexical
+open CifModel.Gen.ErrCodes
+
+/-! ### the table-key classes, universally: any container, any items before and behind, any entries before and behind -/
+
+/-- a key that is not followed by a value, inside a table: one CIF_MISSING_VALUE, the key gets the unknown value; the entries before and behind, the items before and behind are unaffected -/
+theorem table_missing_value_run (o : Opts) {path : Path} {put : Container → Cif} {code : Str} (hv : View o path put code)
+    (pre post : List Item) (n : Str) (btx : Str) (epre epost : List (Str × Presentation × Val)) (k : Str) (kp : Presentation)
+    (seen seen2 : List Str) (rest : List TokSpec) (s : PS) (fuel : Nat) (w : W)
+    (fs : List Container) (ls : List Loop) (isBlock : Bool) (hcif : w.cif = put (.mk code fs ls))
+    (hpre : wfItems o pre seen = true) (hseen : ∀ k ∈ normNames o ls, k ∈ seen)
+    (hname : wfName n = true) (hfresh : o.norm n ∉ normNames o (denoteItems o.dia o.normKey pre ls))
+    (hepre : wfEntries o epre = true) (hepost : wfEntries o epost = true) (hk0 : noNul k = true) (hkd : hasDisallowed k = false)
+    (hpost : wfItems o post seen2 = true)
+    (hseen2 : ∀ x ∈ normNames o (denoteItems o.dia o.normKey (pre ++ [.item n (.tbl (epre ++ [(k, kp, Val.unk)] ++ epost))]) ls), x ∈ seen2)
+    (hfuel : szItems pre + szItems post + (szEntries epre + szEntries epost + 0 + 2 + 2 * epre.length + 3) + 1 ≤ fuel)
+    (hrest : lastIsLoop post = true → ∃ ty tx ts, rest = (ty, tx) :: ts ∧ isTerminator ty = true)
+    (hF : Feeds o s (itemsToks pre ++ (((.name, n) :: (.otable, btx) ::
+        (entriesToks epre ++ ([(TokType.key, k)] ++ (entriesToks epost ++ [(.ctable, [125])])))) ++ (itemsToks post ++ rest)))) :
+    ∃ s' r, elemsLoop o (fuel + post.length + 1 + pre.length) s (some path) isBlock acceptAll w
+        = elemsLoop o fuel s' (some path) isBlock acceptAll
+            { log := r :: w.log,
+              cif := put (.mk code fs (denoteItems o.dia o.normKey (pre ++ [.item n (.tbl (epre ++ [(k, kp, Val.unk)] ++ epost))] ++ post) ls)) }
+      ∧ r.code = CIF_MISSING_VALUE ∧ Feeds o s' rest :=
+  table_item_run_as o hv pre post n btx epre epost [(k, kp, Val.unk)] [(TokType.key, k)] CIF_MISSING_VALUE 2 0 seen seen2 rest s fuel w fs ls isBlock
+    hcif hpre hseen hname hfresh hepre hepost
+    (fun F X s1 w1 acc1 hf h => by simpa [denoteEntries, denoteVal] using table_missing_value_step o k epost X F s1 w1 acc1 hk0 hkd h)
+    hpost hseen2 hfuel hrest hF
+
+/-- a text field in key position: one CIF_MISQUOTED_KEY, the entry is kept under the decoded content of the field -/
+theorem table_misquoted_key_run (o : Opts) {path : Path} {put : Container → Cif} {code : Str} (hv : View o path put code)
+    (pre post : List Item) (n : Str) (btx : Str) (epre epost : List (Str × Presentation × Val)) (body : Str) (kp : Presentation) (v : Val)
+    (seen seen2 : List Str) (rest : List TokSpec) (s : PS) (fuel : Nat) (w : W)
+    (fs : List Container) (ls : List Loop) (isBlock : Bool) (hcif : w.cif = put (.mk code fs ls))
+    (hpre : wfItems o pre seen = true) (hseen : ∀ k ∈ normNames o ls, k ∈ seen)
+    (hname : wfName n = true) (hfresh : o.norm n ∉ normNames o (denoteItems o.dia o.normKey pre ls))
+    (hepre : wfEntries o epre = true) (hepost : wfEntries o epost = true) (hk0 : noNul (Decode.decodeText o.unfold o.prem body) = true)
+    (hkd : hasDisallowed (Decode.decodeText o.unfold o.prem body) = false) (hwv : wfVal o v = true)
+    (hpost : wfItems o post seen2 = true)
+    (hseen2 : ∀ x ∈ normNames o (denoteItems o.dia o.normKey (pre ++ [.item n (.tbl (epre ++ [(Decode.decodeText o.unfold o.prem body, kp, v)] ++ epost))]) ls), x ∈ seen2)
+    (hfuel : szItems pre + szItems post + (szEntries epre + szEntries epost + szVal v + 2 + 2 * epre.length + 3) + 1 ≤ fuel)
+    (hrest : lastIsLoop post = true → ∃ ty tx ts, rest = (ty, tx) :: ts ∧ isTerminator ty = true)
+    (hF : Feeds o s (itemsToks pre ++ (((.name, n) :: (.otable, btx) ::
+        (entriesToks epre ++ (((TokType.tkey, body) :: valToks v) ++ (entriesToks epost ++ [(.ctable, [125])])))) ++ (itemsToks post ++ rest)))) :
+    ∃ s' r, elemsLoop o (fuel + post.length + 1 + pre.length) s (some path) isBlock acceptAll w
+        = elemsLoop o fuel s' (some path) isBlock acceptAll
+            { log := r :: w.log,
+              cif := put (.mk code fs (denoteItems o.dia o.normKey (pre ++ [.item n (.tbl (epre ++ [(Decode.decodeText o.unfold o.prem body, kp, v)] ++ epost))] ++ post) ls)) }
+      ∧ r.code = CIF_MISQUOTED_KEY ∧ Feeds o s' rest :=
+  table_item_run_as o hv pre post n btx epre epost [(Decode.decodeText o.unfold o.prem body, kp, v)] ((TokType.tkey, body) :: valToks v) CIF_MISQUOTED_KEY 2 (szVal v) seen seen2 rest s fuel w fs ls isBlock
+    hcif hpre hseen hname hfresh hepre hepost
+    (fun F X s1 w1 acc1 hf h => by simpa [denoteEntries, denoteVal] using table_misquoted_key_step o body v epost X F s1 w1 acc1 hk0 hkd hwv hf h)
+    hpost hseen2 hfuel hrest hF
+
+/-- a delimited string, text field, list or table without a key inside a table: one CIF_MISSING_KEY, the value is parsed (whatever its size) and dropped -/
+theorem table_missing_key_run (o : Opts) {path : Path} {put : Container → Cif} {code : Str} (hv : View o path put code)
+    (pre post : List Item) (n : Str) (btx : Str) (epre epost : List (Str × Presentation × Val)) (v : Val)
+    (seen seen2 : List Str) (rest : List TokSpec) (s : PS) (fuel : Nat) (w : W)
+    (fs : List Container) (ls : List Loop) (isBlock : Bool) (hcif : w.cif = put (.mk code fs ls))
+    (hpre : wfItems o pre seen = true) (hseen : ∀ k ∈ normNames o ls, k ∈ seen)
+    (hname : wfName n = true) (hfresh : o.norm n ∉ normNames o (denoteItems o.dia o.normKey pre ls))
+    (hepre : wfEntries o epre = true) (hepost : wfEntries o epost = true) (hnb : notBare v = true) (hwv : wfVal o v = true)
+    (hpost : wfItems o post seen2 = true)
+    (hseen2 : ∀ x ∈ normNames o (denoteItems o.dia o.normKey (pre ++ [.item n (.tbl (epre ++ [] ++ epost))]) ls), x ∈ seen2)
+    (hfuel : szItems pre + szItems post + (szEntries epre + szEntries epost + szVal v + 1 + 2 * epre.length + 3) + 1 ≤ fuel)
+    (hrest : lastIsLoop post = true → ∃ ty tx ts, rest = (ty, tx) :: ts ∧ isTerminator ty = true)
+    (hF : Feeds o s (itemsToks pre ++ (((.name, n) :: (.otable, btx) ::
+        (entriesToks epre ++ ((valToks v) ++ (entriesToks epost ++ [(.ctable, [125])])))) ++ (itemsToks post ++ rest)))) :
+    ∃ s' r, elemsLoop o (fuel + post.length + 1 + pre.length) s (some path) isBlock acceptAll w
+        = elemsLoop o fuel s' (some path) isBlock acceptAll
+            { log := r :: w.log,
+              cif := put (.mk code fs (denoteItems o.dia o.normKey (pre ++ [.item n (.tbl (epre ++ [] ++ epost))] ++ post) ls)) }
+      ∧ r.code = CIF_MISSING_KEY ∧ Feeds o s' rest :=
+  table_item_run_as o hv pre post n btx epre epost [] (valToks v) CIF_MISSING_KEY 1 (szVal v) seen seen2 rest s fuel w fs ls isBlock
+    hcif hpre hseen hname hfresh hepre hepost
+    (fun F X s1 w1 acc1 hf h => by simpa [denoteEntries, denoteVal] using table_missing_key_step o v epost X F s1 w1 acc1 hnb hwv hf h)
+    hpost hseen2 hfuel hrest hF
+
+/-- a whitespace-delimited word without a colon inside a table: one CIF_MISSING_KEY, the word is dropped -/
+theorem table_stray_word_run (o : Opts) {path : Path} {put : Container → Cif} {code : Str} (hv : View o path put code)
+    (pre post : List Item) (n : Str) (btx : Str) (epre epost : List (Str × Presentation × Val)) (tx : Str)
+    (seen seen2 : List Str) (rest : List TokSpec) (s : PS) (fuel : Nat) (w : W)
+    (fs : List Container) (ls : List Loop) (isBlock : Bool) (hcif : w.cif = put (.mk code fs ls))
+    (hpre : wfItems o pre seen = true) (hseen : ∀ k ∈ normNames o ls, k ∈ seen)
+    (hname : wfName n = true) (hfresh : o.norm n ∉ normNames o (denoteItems o.dia o.normKey pre ls))
+    (hepre : wfEntries o epre = true) (hepost : wfEntries o epost = true) (hhead : tx.head? ≠ some colon) (hcolon : colonIdx tx = none)
+    (hpost : wfItems o post seen2 = true)
+    (hseen2 : ∀ x ∈ normNames o (denoteItems o.dia o.normKey (pre ++ [.item n (.tbl (epre ++ [] ++ epost))]) ls), x ∈ seen2)
+    (hfuel : szItems pre + szItems post + (szEntries epre + szEntries epost + 0 + 1 + 2 * epre.length + 3) + 1 ≤ fuel)
+    (hrest : lastIsLoop post = true → ∃ ty tx ts, rest = (ty, tx) :: ts ∧ isTerminator ty = true)
+    (hF : Feeds o s (itemsToks pre ++ (((.name, n) :: (.otable, btx) ::
+        (entriesToks epre ++ ([(TokType.value, tx)] ++ (entriesToks epost ++ [(.ctable, [125])])))) ++ (itemsToks post ++ rest)))) :
+    ∃ s' r, elemsLoop o (fuel + post.length + 1 + pre.length) s (some path) isBlock acceptAll w
+        = elemsLoop o fuel s' (some path) isBlock acceptAll
+            { log := r :: w.log,
+              cif := put (.mk code fs (denoteItems o.dia o.normKey (pre ++ [.item n (.tbl (epre ++ [] ++ epost))] ++ post) ls)) }
+      ∧ r.code = CIF_MISSING_KEY ∧ Feeds o s' rest :=
+  table_item_run_as o hv pre post n btx epre epost [] [(TokType.value, tx)] CIF_MISSING_KEY 1 0 seen seen2 rest s fuel w fs ls isBlock
+    hcif hpre hseen hname hfresh hepre hepost
+    (fun F X s1 w1 acc1 hf h => by simpa [denoteEntries, denoteVal] using table_stray_word_step o tx epost X F s1 w1 acc1 hhead hcolon h)
+    hpost hseen2 hfuel hrest hF
+
+/-- a colon standing alone in key position: one CIF_NULL_KEY, the value behind it is parsed and dropped -/
+theorem table_null_key_run (o : Opts) {path : Path} {put : Container → Cif} {code : Str} (hv : View o path put code)
+    (pre post : List Item) (n : Str) (btx : Str) (epre epost : List (Str × Presentation × Val)) (v : Val)
+    (seen seen2 : List Str) (rest : List TokSpec) (s : PS) (fuel : Nat) (w : W)
+    (fs : List Container) (ls : List Loop) (isBlock : Bool) (hcif : w.cif = put (.mk code fs ls))
+    (hpre : wfItems o pre seen = true) (hseen : ∀ k ∈ normNames o ls, k ∈ seen)
+    (hname : wfName n = true) (hfresh : o.norm n ∉ normNames o (denoteItems o.dia o.normKey pre ls))
+    (hepre : wfEntries o epre = true) (hepost : wfEntries o epost = true) (hwv : wfVal o v = true)
+    (hpost : wfItems o post seen2 = true)
+    (hseen2 : ∀ x ∈ normNames o (denoteItems o.dia o.normKey (pre ++ [.item n (.tbl (epre ++ [] ++ epost))]) ls), x ∈ seen2)
+    (hfuel : szItems pre + szItems post + (szEntries epre + szEntries epost + szVal v + 2 + 2 * epre.length + 3) + 1 ≤ fuel)
+    (hrest : lastIsLoop post = true → ∃ ty tx ts, rest = (ty, tx) :: ts ∧ isTerminator ty = true)
+    (hF : Feeds o s (itemsToks pre ++ (((.name, n) :: (.otable, btx) ::
+        (entriesToks epre ++ (((TokType.value, [colon]) :: valToks v) ++ (entriesToks epost ++ [(.ctable, [125])])))) ++ (itemsToks post ++ rest)))) :
+    ∃ s' r, elemsLoop o (fuel + post.length + 1 + pre.length) s (some path) isBlock acceptAll w
+        = elemsLoop o fuel s' (some path) isBlock acceptAll
+            { log := r :: w.log,
+              cif := put (.mk code fs (denoteItems o.dia o.normKey (pre ++ [.item n (.tbl (epre ++ [] ++ epost))] ++ post) ls)) }
+      ∧ r.code = CIF_NULL_KEY ∧ Feeds o s' rest :=
+  table_item_run_as o hv pre post n btx epre epost [] ((TokType.value, [colon]) :: valToks v) CIF_NULL_KEY 2 (szVal v) seen seen2 rest s fuel w fs ls isBlock
+    hcif hpre hseen hname hfresh hepre hepost
+    (fun F X s1 w1 acc1 hf h => by simpa [denoteEntries, denoteVal] using table_null_key_step o v epost X F s1 w1 acc1 hwv hf h)
+    hpost hseen2 hfuel hrest hF
+
+end CifModel.Model.Parser
